@@ -549,6 +549,9 @@ func (p *Pipe) Exec(s Step, dids []int) error {
 		bb := *b
 		if s.K != "C" {
 			bb.Extra = VersionPatches(p.curver, tok)
+			// deterministic signature schemes (Ed25519) would make repeated requests byte-identical: a unique,
+			// always-satisfied window (no anchorFrom, far-away anchorUntil) keeps every submission distinct
+			bb.WinOverride = &[2]int64{0, 1000000000000 + int64(p.nsub)}
 		}
 		req, err := bb.Request(sh)
 		if err != nil {
